@@ -80,6 +80,23 @@ Definition finish (bs : boxes) (s : selected) (unt : list resp) (code : rcode) (
 
 Definition all_set : seqset := [SRange (SNum 1) SMax].
 
+(* the `for seq, cached_msg in selected.messages.get_all(sequence_set)` loops:
+   [op uid b] = the per-message backend call (get or update), which returns the
+   message object and whether it is an expunged copy; None = it raised *)
+Definition msg_loop (op : N -> mbox -> option (mbox * msg * bool)) (targets : list (N * N))
+           (b : mbox) : option (mbox * list (N * msg * bool)) :=
+  fold_left (fun (st : option (mbox * list (N * msg * bool))) (su : N * N) =>
+               match st with
+               | None => None
+               | Some (b, acc) =>
+                 match op (snd su) b with
+                 | None => None
+                 | Some (b', m, ex) => Some (b', acc ++ [(fst su, m, ex)])
+                 end
+               end) targets (Some (b, [])).
+Definition op_get (uid : N) (b : mbox) : option (mbox * msg * bool) :=
+  match mb_get uid b with Some (m, ex) => Some (b, m, ex) | None => None end.
+
 (* ---------------------------------------------------------------- SELECT *)
 Definition do_select (bs : boxes) (name : N) (readonly : bool) : outcome :=
   match aget name bs with
@@ -148,16 +165,7 @@ Definition do_store (bs : boxes) (s : selected) (sset : seqset) (by_uid : bool) 
     let targets := view_select sset by_uid (sel_view s0) in
     let s1 := if silent then silence (keyed_targets (sel_view s0) targets) (fs_of fl) op s0 else s0 in
       let pset := perm_intersect (fs_of fl) in
-      let step (st : option (mbox * list (N * msg * bool))) (su : N * N) :=
-          match st with
-          | None => None
-          | Some (b, acc) =>
-            match mb_update (snd su) op pset b with
-            | None => None
-            | Some (b', m, ex) => Some (b', acc ++ [(fst su, m, ex)])
-            end
-          end in
-      match fold_left step targets (Some (b, [])) with
+      match msg_loop (fun u b => mb_update u op pset b) targets b with
       | None => server_bug bs
       | Some (b', msgs) =>
         let s2 := sync b' s1 in
@@ -175,18 +183,15 @@ Definition do_store (bs : boxes) (s : selected) (sset : seqset) (by_uid : bool) 
 
 (* --------------------------------------------------------------- EXPUNGE *)
 Definition find_deleted (b : mbox) (s : selected) (uid_set : seqset) : option (list N) :=
-  fold_left (fun (acc : option (list N)) (su : N * N) =>
-               match acc with
-               | None => None
-               | Some l =>
-                 match mb_get (snd su) b with
-                 | None => None
-                 | Some (m, _) =>
-                   if fs_mem F_DELETED (with_recent (nmem (m_uid m) (sel_recent s)) (m_flags m))
-                   then Some (l ++ [m_uid m]) else Some l
-                 end
-               end)
-            (view_select uid_set true (sel_view s)) (Some []).
+  match msg_loop op_get (view_select uid_set true (sel_view s)) b with
+  | None => None
+  | Some (_, msgs) =>
+    Some (map (fun x : N * msg * bool => m_uid (snd (fst x)))
+              (filter (fun x : N * msg * bool =>
+                         let m := snd (fst x) in
+                         fs_mem F_DELETED (with_recent (nmem (m_uid m) (sel_recent s)) (m_flags m)))
+                      msgs))
+  end.
 
 Definition do_expunge (bs : boxes) (s : selected) (uid_set : option seqset) : outcome :=
   if sel_readonly s then refuse bs (Some s) NO CReadOnly
@@ -206,10 +211,8 @@ Definition do_close (bs : boxes) (s : selected) : outcome :=
   if sel_readonly s then MkOut bs None false [] (Tagged OK CNone) false []
   else
     let o := do_expunge bs s None in
-    match o_tagged o with
-    | Tagged OK _ => MkOut (o_boxes o) None false [] (Tagged OK CNone) false []
-    | _ => MkOut (o_boxes o) None false [] (o_tagged o) false []
-    end.
+    MkOut (o_boxes o) None false []
+          (match o_tagged o with Tagged OK _ => Tagged OK CNone | t => t end) false [].
 
 (* ------------------------------------------------------------ COPY, MOVE *)
 Definition do_copy_move (move : bool) (me : N) (bs : boxes) (s : selected) (sset : seqset)
@@ -269,21 +272,8 @@ Definition do_fetch (bs : boxes) (s : selected) (sset : seqset) (by_uid want_uid
   | Some b =>
     let s0 := if by_uid then s else with_hide s in
     let seen := negb (sel_readonly s0) && set_seen in
-    let step (st : option (mbox * list (N * msg * bool))) (su : N * N) :=
-        match st with
-        | None => None
-        | Some (b, acc) =>
-          if seen
-          then match mb_update (snd su) FAdd [F_SEEN] b with
-               | None => None
-               | Some (b', m, ex) => Some (b', acc ++ [(fst su, m, ex)])
-               end
-          else match mb_get (snd su) b with
-               | None => None
-               | Some (m, ex) => Some (b, acc ++ [(fst su, m, ex)])
-               end
-        end in
-    match fold_left step (view_select sset by_uid (sel_view s0)) (Some (b, [])) with
+    match msg_loop (if seen then (fun u b => mb_update u FAdd [F_SEEN] b) else op_get)
+                   (view_select sset by_uid (sel_view s0)) b with
     | None => server_bug bs
     | Some (b', msgs) =>
       let s1 := sync b' s0 in
@@ -312,27 +302,21 @@ Definition do_search (bs : boxes) (s : selected) (by_uid : bool)
                 | Some (ss, true) => seq_iter (view_max_uid v) ss
                 | Some (ss, false) => seq_iter (view_exists v) ss
                 | None => [] end in
-    let step (st : option (list (N * N) * bool)) (su : N * N) :=
-        match st with
-        | None => None
-        | Some (ids, any_ex) =>
-          match mb_get (snd su) b with
-          | None => None
-          | Some (m, ex) =>
-            let fl := with_recent (nmem (m_uid m) (sel_recent s0)) (m_flags m) in
-            let ok_set := match sskey with
-                          | Some (_, true) => nmem (m_uid m) flat
-                          | Some (_, false) => nmem (fst su) flat
-                          | None => true end in
-            let ok_flags := forallb (fun fe : N * bool => Bool.eqb (fs_mem (fst fe) fl) (snd fe)) fkeys in
-            if ok_set && ok_flags
-            then Some (ids ++ [((if by_uid then m_uid m else fst su), m_uid m)], any_ex || ex)
-            else Some (ids, any_ex)
-          end
-        end in
-    match fold_left step (view_select pre pre_uid v) (Some ([], false)) with
+    let matches (x : N * msg * bool) : bool :=
+        let '(seq, m, _) := x in
+        let fl := with_recent (nmem (m_uid m) (sel_recent s0)) (m_flags m) in
+        let ok_set := match sskey with
+                      | Some (_, true) => nmem (m_uid m) flat
+                      | Some (_, false) => nmem seq flat
+                      | None => true end in
+        ok_set && forallb (fun fe : N * bool => Bool.eqb (fs_mem (fst fe) fl) (snd fe)) fkeys in
+    match msg_loop op_get (view_select pre pre_uid v) b with
     | None => server_bug bs
-    | Some (ids, any_ex) =>
+    | Some (_, msgs) =>
+      let hits := filter matches msgs in
+      let ids := map (fun x : N * msg * bool =>
+                        let '(seq, m, _) := x in ((if by_uid then m_uid m else seq), m_uid m)) hits in
+      let any_ex := existsb (fun x : N * msg * bool => snd x) hits in
       MkOut bs (Some (sync b s0)) true [Search by_uid ids]
             (Tagged OK (if any_ex then CExpungeIssued else CNone)) by_uid []
     end
